@@ -6,6 +6,7 @@
      rx{rr,path,out}                         Go regexp applied to a path (keeps the spec's regex meaning honest)
      hdr{c,rc,n,up,status,down}              in-process MOSN: request-side case c, response-side case rc
      path{c,n,path,query,host,orig,status}   what the upstream received for a rewrite case
+     hop{c,n,path,orig,status}               what the upstream received behind two chained listeners that both rewrite
      pfc{c,n,route,vhost}                    what a stream filter read through the matched route (per_filter_config)
      (hdr / path events carry proto = "h1" | "h2": the listener and cluster variant the case went through)
      redir{c,n,status,loc}   direct{c,n,status,body}     the local reply; n = number of upstream arrivals
@@ -34,6 +35,12 @@ TPath == /\ IsEvent("path")
          /\ Expect(Ev.n # 1 \/ Ev.orig = SemOrig(Ev.c), "original-path-header")
          /\ Expect(Ev.status = 200, "reply-status")
 
+THop == /\ IsEvent("hop")
+        /\ Expect(Ev.n = 1, "not-forwarded-exactly-once")
+        /\ Expect(Ev.n # 1 \/ Ev.path = SemHop(Ev.c).path, "two-hops:path-rewrite")
+        /\ Expect(Ev.n # 1 \/ Ev.orig = SemHop(Ev.c).orig, "two-hops:original-path-header")
+        /\ Expect(Ev.status = 200, "reply-status")
+
 TRedir == /\ IsEvent("redir")
           /\ Expect(Ev.n = 0, "redirect-forwarded")
           /\ Expect(Ev.status = SemRedirCode(Ev.c), "redirect-status")
@@ -53,6 +60,6 @@ TTmo == /\ IsEvent("tmo")
         /\ Expect(Ev.g = SemTimeout(Ev.c).g, "timeout-global")
         /\ Expect(Ev.t = SemTimeout(Ev.c).t, "timeout-per-try")
 
-TraceNext == (TRx \/ THdr \/ TPfc \/ TPath \/ TRedir \/ TDirect \/ TTmo) /\ UNCHANGED c
+TraceNext == (TRx \/ THdr \/ TPfc \/ THop \/ TPath \/ TRedir \/ TDirect \/ TTmo) /\ UNCHANGED c
 TraceSpec == TraceInit /\ [][TraceNext]_tvars
 ====
